@@ -99,6 +99,21 @@ class World(WsWorld):
         sfac.setProtocolOptions(**sopts)
         cfac.setProtocolOptions(**copts)
         self.sfac, self.cfac = sfac, cfac
+        cfg["decoy"] = ch.flag("decoy-connection-first", 0.2)
+        if cfg["decoy"]:
+            # an earlier connection of the same factories that is cut in the middle of a streamed frame / a fragmented
+            # or compressed message in both directions
+            RecServer_, RecClient_ = RecServer, RecClient
+            sfac.protocol, cfac.protocol = RecServer_, RecClient_
+            k = 1 + ch.choose(60, "decoy-k")
+
+            def script(dc, ds):
+                for ep in (ds, dc):
+                    ep.p.sendMessage(b"decoy-whole-message", True)
+                    ep.p.beginMessage(True, doNotCompress=True)
+                    ep.p.beginMessageFrame(100)
+                    ep.p.sendMessageFrameData(b"d" * k)
+            self.decoy_pair(cfac, sfac, script)
         c, s = self.build_pair(cfac, sfac)
         comp = cfg["deflate"]
         # (prepared messages are framed by the factory: always masked for clients, never for
